@@ -76,11 +76,19 @@ def check_case(case, res=None):
         # ---- B: in-process, permuted walk, reversed creation order, pre-populated output, twice
         xml_b = os.path.join(pkg.root, "xml_b")
         rendered = spec.render_tree(tree)
-        for rel in reversed(list(rendered)):
+        # the same documents spelled differently (line ends, XML comments, attribute order and quotes, <x></x>,
+        # byte order mark, no declaration), next to files a checkout of the protocol also holds
+        style = (case.get("walk_seed", 1) * 7 + case.get("walk_seed2", 1)) % 128
+        for n_, rel in enumerate(reversed(list(rendered))):
             p = os.path.join(xml_b, rel)
             os.makedirs(os.path.dirname(p), exist_ok=True)
-            with open(p, "w", encoding="utf-8") as f:
-                f.write(rendered[rel])
+            with open(p, "w", encoding="utf-8", newline="") as f:
+                f.write(spec.restyle(rendered[rel], (style + 37 * n_) % 128))
+            for extra, text in (("protocol.xsd", '<?xml version="1.0"?>\n<schema><enum name="NotAType"/></schema>\n'),
+                                ("protocol.xml.orig", "<protocol><struct name="), ("README.md", "# notes\n")):
+                if (n_ + len(extra)) % 2:
+                    with open(os.path.join(os.path.dirname(p), extra), "w", encoding="utf-8") as f:
+                        f.write(text)
         out_b = os.path.join(pkg.root, "out_b")
         for rel, data in files_a.items():
             p = os.path.join(out_b, rel)
@@ -140,6 +148,10 @@ def check_case(case, res=None):
         out_c = os.path.join(pkg.root, "out_c")
         env = dict(os.environ, PYTHONHASHSEED=str(case.get("hashseed", 1)), PYTHONDONTWRITEBYTECODE="1")
         env.pop("PYTHONPATH", None)
+        if case.get("hashseed", 1) % 2:
+            # a build machine with the plain C locale: the platform's default text encoding is ASCII there
+            env.update(LC_ALL="C", LANG="C", PYTHONUTF8="0", PYTHONCOERCECLOCALE="0")
+            env.pop("PYTHONIOENCODING", None)
         r = subprocess.run([PY, "-B", os.path.join(VERIF, "vlib", "sub_gen.py"), REPO, pkg.xml_root, out_c,
                             "-2", "0"], env=env, capture_output=True, text=True)   # descending walk order
         try:
